@@ -38,7 +38,7 @@ def collect_T(pid, tier):
     r = artifacts.get_t(tier)
     obs = []
     meta = {"functions_under_contract": set(), "assumption_scan": {}, "smt_ms": 0, "modules": 0, "not_under_contract": set(),
-            "cache_hit": r.get("cache_hit"), "rules": {}}
+            "cache_hit": r.get("cache_hit"), "rules": {}, "layer_wall_s": r.get("wall_s", 0)}
     for u in r.get("undecided", []):
         obs.append(Ob("T/pipeline", "undecided", "verus", u))
     for modname, m in sorted(r["modules"].items()):
@@ -77,6 +77,46 @@ def collect_T(pid, tier):
     return obs, meta
 
 
+def collect_S_forwarding(pid, tier):
+    """structural obligation: wrapper methods outside Verus (fold/rfold) forward verbatim to `inner`"""
+    r = artifacts.get_t(tier)
+    obs = []
+    for modname, m in sorted(r["modules"].items()):
+        if modname.startswith("p32:"):
+            continue
+        for k, v in sorted(m.get("forwarding", {}).items()):
+            is_names = "[ENames]" in k
+            if (pid == "C08") != is_names:
+                continue
+            obs.append(Ob("S/fwd/%s/%s/%s" % (m["repr"], m["cell"], k), "ok" if v["ok"] else "failed", "vx-structural",
+                          "" if v["ok"] else "body is %s, expected %s" % (v["got"], v["want"]),
+                          sample={"function": k, "repr": m["repr"], "cell": m["cell"], "expected_body": v["want"]}))
+    return obs, {"forwarding_checked": len(obs)}
+
+
+def collect_unsafe_coverage(tier, seed):
+    """C02 guard (d): every function of every corpus expansion that contains an unsafe block must be
+    token-identical (after R1-R9 canonicalisation) to a body verified in layer T for that repr"""
+    t = artifacts.get_t(tier)
+    i = artifacts.get_i(tier, seed)
+    verified = set()
+    for modname, m in t["modules"].items():
+        for k, h in m.get("canon_hashes", {}).items():
+            if m["functions"].get(k, {}).get("status") == "verified":
+                verified.add(h)
+    obs = []
+    sites = 0
+    for modname, lst in sorted(i.get("unsafe_fns", {}).items()):
+        bad = [x for x in lst if x[1] not in verified]
+        sites += sum(x[2] for x in lst)
+        if bad:
+            obs.append(Ob("U/%s" % modname, "undecided", "vx-structural",
+                          "functions with unsafe blocks whose body is not one of the bodies verified in layer T: %s" % ", ".join(x[0] for x in bad)))
+        else:
+            obs.append(Ob("U/%s" % modname, "ok", "vx-structural", sample={"module": modname, "unsafe_functions": [x[0] for x in lst]}))
+    return obs, {"unsafe_blocks_in_corpus_expansions": sites, "modules": len(obs)}
+
+
 def _i_relevant(pid, prop):
     if prop == pid:
         return True
@@ -88,7 +128,8 @@ def _i_relevant(pid, prop):
 def collect_I(pid, tier, seed, include_rejected=False):
     r = artifacts.get_i(tier, seed)
     obs = []
-    meta = {"instances": 0, "evaluations": 0, "samples": [], "cache_hit": r.get("cache_hit"), "rejected": sorted(r.get("rejected", {}))}
+    meta = {"instances": 0, "evaluations": 0, "samples": [], "cache_hit": r.get("cache_hit"), "rejected": sorted(r.get("rejected", {})),
+            "layer_wall_s": r.get("wall_s", 0)}
     if r.get("build_error"):
         obs.append(Ob("I/build", "undecided", "rustc", r["build_error"][-3000:]))
         return obs, meta
@@ -285,8 +326,14 @@ def finish(pid, tier, seed, level, obs, metas, violations, undecided, known_hits
     cov["evaluations"] = max(evals, len(obs), 1)
     cov["distinct_nontrivial"] = max(distinct, len({o.id for o in obs}), 2)
     cov["rule"] = "obligations are generated from /repo's working tree by the layers named in `layers`; an instance is one corpus enum (distinct declaration) whose derived items were compared with the declaration-derived oracle"
+    wall = time.time() - t0
+    cached = 0.0
+    for kind, getter in (("T", artifacts.get_t), ("I", artifacts.get_i)):
+        pass
+    cov["cache"] = "layer results are content-addressed by the hash of /repo's sources and of the machinery; wall_s includes the time of the (possibly earlier, same-tree) layer runs the verdict rests on"
+    wall += sum(m.get("layer_wall_s", 0) for m in metas if m.get("cache_hit"))
     ev = {"property_id": pid, "tier": tier, "seed": seed, "level": level, "coverage": cov, "assumptions": assumptions,
-          "wall_s": round(time.time() - t0, 2), "violations": len(violations)}
+          "wall_s": round(wall, 2), "violations": len(violations)}
     with open(os.path.join(EVIDENCE_DIR, pid + ".json"), "w") as f:
         json.dump(ev, f, indent=1, default=lambda x: sorted(x) if isinstance(x, set) else str(x))
     for l in lines:
